@@ -255,6 +255,11 @@ func formatterCorpus(e *Engine, seed int) []string {
 		}
 		add("root packet P { u8 k, match k as b { [" + strings.Join(ks, ", ") + "] : A, }, }\npacket A { u8 x, }")
 		add("root packet P { string k, match k as b { [" + strings.Join(ss, ",") + "] : A, 99 : A }, }\npacket A { u8 x, }")
+		// a comment on the line of the pair, and the same list split by hand over two lines
+		add("root packet P { u8 k, match k as b {\n [" + strings.Join(ks, ", ") + "] : A, // after the pair\n 99 : A, // second\n }, }\npacket A { u8 x, }")
+		if n >= 2 {
+			add("root packet P { u8 k, match k as b {\n // before the pair\n [" + strings.Join(ks[:n/2], ", ") + ",\n " + strings.Join(ks[n/2:], ", ") + "] : A, // after the pair\n }, }\npacket A { u8 x, }")
+		}
 	}
 	// comments at token boundaries: own-line before token i, same-line after token i
 	for bi, s := range base {
